@@ -5,6 +5,7 @@
    (geometry JSON, numbers, true/false/null, JSON-valued fields) or a string, which JSON mode
    writes with jsonString and RESP mode as the bare bytes.  A distance is its printed text plus
    the outcome of the test dist > 0. *)
+From Coq Require Import Sorted.
 From T38 Require Import Base.Bytes Model.RespOut.
 Open Scope N_scope.
 
@@ -29,9 +30,10 @@ Record item := {
   it_id : bytes;
   it_obj : tval;                       (* o.Geo().AppendJSON / o.String(); a string object is a TStr *)
   it_fields : list (bytes * tval);     (* the object's field list, in field-name order *)
-  it_jpath : list (bytes * tval);      (* listed names that field.List.Get answers through a JSON path: a name
-                                          j.p when the object stores a JSON-valued field j in which gjson finds p
-                                          (the JSON path is tried before the stored name) *)
+  it_jpath : list (bytes * tval);      (* PINNED tree only (before fix 903e555): the listed names that
+                                          field.List.Get answered through a JSON path — a name j.p when the object
+                                          stores a JSON-valued field j in which gjson finds p.  Not read by the
+                                          live renderings; kept for c17_scan_json_path_field_pinned_refuted *)
   it_distout : bool;                   (* opts.distOutput *)
   it_dist : bytes;                     (* strconv.FormatFloat(opts.dist) / appendJSONFloat *)
   it_dist_pos : bool                   (* opts.dist > 0 *)
@@ -84,8 +86,17 @@ Fixpoint getv_opt (n : bytes) (fs : list (bytes * tval)) : option tval :=
   | (k, v) :: r => if bytes_eqb n k then Some v else getv_opt n r
   end.
 
-(* opts.obj.Fields().Get(name) of the JSON arm: List.Get resolves a dotted name inside a JSON-valued
-   field first, then looks for the stored name *)
+(* the JSON arm of writeFilled since fix 903e555: the stored field of that exact name,
+     opts.obj.Fields().Scan(func(g) bool { if g.Name() == name { f = g; return false }; return g.Name() < name })
+   (the scan stops at the first larger name: field.List is name-ordered) *)
+Fixpoint get_stored (n : bytes) (fs : list (bytes * tval)) : tval :=
+  match fs with
+  | [] => tzero
+  | (k, v) :: r => if bytes_eqb k n then v else if bytes_ltb k n then get_stored n r else tzero
+  end.
+
+(* the pinned JSON arm: opts.obj.Fields().Get(name); List.Get resolves a dotted name inside a
+   JSON-valued field first, then looks for the stored name *)
 Definition getj (n : bytes) (it : item) : tval :=
   match getv_opt n (it_jpath it) with
   | Some v => v
@@ -102,7 +113,7 @@ Definition json_item (r : scanres) (it : item) : jval :=
   | _ =>
       JObj ([(k_id, JStr (it_id it)); (k_object, tjson (it_obj it))] ++
             (if fields_output r && negb (match sr_names r with [] => true | _ => false end)
-             then [(k_fields, JArr (map (fun n => tjson (getj n it)) (sr_names r)))] else []) ++
+             then [(k_fields, JArr (map (fun n => tjson (get_stored n (it_fields it))) (sr_names r)))] else []) ++
             (if show_dist it then [(k_distance, JTok (it_dist it))] else []))
   end.
 
@@ -301,13 +312,23 @@ Inductive covers : list (bytes * tval) -> list bytes -> Prop :=
 | cov_skip fs n ns : covers fs ns -> covers fs (n :: ns)
 | cov_take n v fs ns : covers fs ns -> covers ((n, v) :: fs) (n :: ns).
 
-Definition wf_names (r : scanres) : Prop :=
-  NoDup (sr_names r) /\ Forall (fun it => covers (it_fields it) (sr_names r)) (sr_items r).
+(* byte order of names (the fkeys B-tree set, field.List) *)
+Definition names_sorted (l : list bytes) : Prop := StronglySorted (fun a b => bytes_ltb a b = true) l.
 
-(* ... and no listed field name is answered through a JSON path of another field of the same
-   object (open finding C17-scan-json-path-field: c17_scan_json_path_field_refuted) *)
 Definition wf_res (r : scanres) : Prop :=
-  wf_names r /\ Forall (fun it => it_jpath it = []) (sr_items r).
+  NoDup (sr_names r) /\ Forall (fun it => covers (it_fields it) (sr_names r)) (sr_items r) /\
+  names_sorted (sr_names r).
+
+(* the JSON arm as it was before fix 903e555 (finding C17-scan-json-path-field): cells read with List.Get *)
+Definition json_item_pinned (r : scanres) (it : item) : jval :=
+  match sr_out r with
+  | OIds => json_item r it
+  | _ =>
+      JObj ([(k_id, JStr (it_id it)); (k_object, tjson (it_obj it))] ++
+            (if fields_output r && negb (match sr_names r with [] => true | _ => false end)
+             then [(k_fields, JArr (map (fun n => tjson (getj n it)) (sr_names r)))] else []) ++
+            (if show_dist it then [(k_distance, JTok (it_dist it))] else []))
+  end.
 
 (* the seeded variant C17/2: the JSON ids arm tests dist > 0 only *)
 Definition json_item_dropzero (r : scanres) (it : item) : jval :=
